@@ -18,6 +18,8 @@ import Rl4co.Train.Dual
 import Rl4co.Train.Welford
 import Rl4co.Train.Baselines
 import Rl4co.Train.Loss
+import Rl4co.Train.Coded
+import Rl4co.Train.RolloutBl
 import Rl4co.Spec.Train
 namespace Rl4co.Driver.Train
 open Rl4co.Train
@@ -81,19 +83,20 @@ def orNone (o : Option Rat) : String := match o with | none => "none" | some r =
 
 /-! ### C20 -/
 
-/-- `train.welford NB (LEN x^LEN)^NB` → state after every batch + the spec on everything seen so far -/
+/-- `train.welford NB (LEAD LEN x^LEN)^NB` → state after every batch + the spec on everything seen so far;
+`LEAD` is `len(tensor)` of the score tensor as passed (its first dimension), the entries are row-major -/
 def welford : P String := do
   let nb ← pNat
-  let batches ← pMany (do let n ← pNat; pMany pRat n) nb
+  let batches ← pMany (do let lead ← pNat; let n ← pNat; let xs ← pMany pRat n; pure (lead, xs)) nb
   atEnd
   let rec go (st : Welford.St Rat) (seen : List Rat) (acc : List (Welford.St Rat × List Rat)) :
-      List (List Rat) → List (Welford.St Rat × List Rat)
+      List (Nat × List Rat) → List (Welford.St Rat × List Rat)
     | [] => acc.reverse
-    | b :: bs => let st' := Welford.update st b; go st' (seen ++ b) ((st', seen ++ b) :: acc) bs
+    | (lead, b) :: bs => let st' := Welford.updateC lead st b; go st' (seen ++ b) ((st', seen ++ b) :: acc) bs
   let tr := go Welford.init [] [] batches
   let f (g : Welford.St Rat × List Rat → Rat) := rsl (tr.map g)
   pure (s!"count={",".intercalate (tr.map (fun p => toString p.1.count))} mean={f (·.1.mean)} M2={f (·.1.M2)} "
-    ++ s!"var={f (fun p => Welford.variance p.1)} smean={f (fun p => Spec.Train.mean p.2)} "
+    ++ s!"var={f (fun p => Welford.varianceC p.1)} smean={f (fun p => Spec.Train.mean p.2)} "
     ++ s!"ssq={f (fun p => Spec.Train.sumSqDev p.2)} svar={f (fun p => Spec.Train.sampleVar p.2)}")
 
 def pMode : P (Welford.Mode Rat) := do
@@ -104,19 +107,22 @@ def pMode : P (Welford.Mode Rat) := do
   else if t == "scale" then pure Welford.Mode.scale
   else failure
 
-/-- `train.scale MODE EPS NB (SQRT LEN x^LEN)^NB` → the outputs of successive `__call__`s; `SQRT` is the
+/-- `train.scale MODE EPS NB (SQRT SQRTREF LEAD LEN x^LEN)^NB` (`SQRT`: root of the as-coded variance, `SQRTREF`: of the sample variance) → the outputs of successive `__call__`s; `SQRT` is the
 value the square root takes at that call (oracle, checked by the harness against `var`) -/
 def scale : P String := do
   let mode ← pMode
   let eps ← pRat
   let nb ← pNat
-  let calls ← pMany (do let s ← pRat; let n ← pNat; let xs ← pMany pRat n; pure (s, xs)) nb
+  let calls ← pMany (do let s ← pRat; let sr ← pRat; let lead ← pNat; let n ← pNat; let xs ← pMany pRat n; pure (s, sr, lead, xs)) nb
   atEnd
-  let rec go (st : Welford.St Rat) (acc : List (List Rat)) : List (Rat × List Rat) → List (List Rat) × Welford.St Rat
+  let rec go (st : Welford.St Rat) (acc : List (List Rat)) : List (Rat × Rat × Nat × List Rat) → List (List Rat) × Welford.St Rat
     | [] => (acc.reverse, st)
-    | (s, b) :: cs => let (st', out) := Welford.call (fun _ => s) eps mode st b; go st' (out :: acc) cs
+    | (s, _, lead, b) :: cs => let (st', out) := Welford.callC (fun _ => s) eps mode lead st b; go st' (out :: acc) cs
   let (outs, st) := go Welford.init [] calls
-  pure s!"out={";".intercalate (outs.map rsl)} count={st.count} mean={rs st.mean} M2={rs st.M2}"
+  let rec goRef (st : Welford.St Rat) (acc : List (List Rat)) : List (Rat × Rat × Nat × List Rat) → List (List Rat)
+    | [] => acc.reverse
+    | (_, sr, _, b) :: cs => let (st', out) := Welford.call (fun _ => sr) eps mode st b; goRef st' (out :: acc) cs
+  pure s!"out={";".intercalate (outs.map rsl)} ref={";".intercalate ((goRef Welford.init [] calls).map rsl)} count={st.count} mean={rs st.mean} M2={rs st.M2}"
 
 /-- `train.ema BETA NB (LEN x^LEN)^NB` → `v` after every `eval`, its gradient part, the closed form -/
 def ema : P String := do
@@ -127,7 +133,7 @@ def ema : P String := do
   let rec go (v : Option Rat) (acc : List (Dual Rat)) : List (List Rat) → List (Dual Rat)
     | [] => acc.reverse
     | b :: bs =>
-      let (val, _, v') := Ema.eval beta v (Ten.vec b.length (ofList 0 (b.map Dual.const)))
+      let (val, _, v') := Ema.evalC beta v (Ten.vec b.length (ofList 0 (b.map Dual.const)))
       go (some v') (val.f 0 0 :: acc) bs
   let vs := go none [] batches
   let means := batches.map Spec.Train.mean
@@ -146,40 +152,54 @@ structure BlOut where
   state : String
   kind : String
 
-partial def pBl (reward : Ten (Dual Rat)) : P (Option BlOut) := do
+inductive BlSpec where
+  | no | shared
+  | given (v : Ten (Dual Rat)) (l : Dual Rat)
+  | ema (beta : Rat) (st : Option Rat)
+  | critic (out : Ten (Dual Rat))
+  | rollout (g : Ten Rat)
+  | warmup (alpha : Rat) (n : Nat) (beta : Rat) (st : Option Rat) (inner : BlSpec)
+
+partial def pBlSpec : P BlSpec := do
   let t ← tok
-  if t == "no" then
-    let (v, l) := (noBaselineEval : Ten (Dual Rat) × Dual Rat); pure (some ⟨v, l, "-", "no"⟩)
-  else if t == "shared" then
-    let (v, l) := sharedEval reward; pure (some ⟨v, l, "-", "shared"⟩)
-  else if t == "given" then
-    let v ← pTenD; let l ← pDual; pure (some ⟨v.t, l, "-", "given"⟩)
-  else if t == "ema" then
-    let beta ← pRat; let st ← pOptRat
-    let (v, l, e) := Ema.eval beta st reward
-    pure (some ⟨v, l, s!"ema:{rs e}", "ema"⟩)
-  else if t == "critic" then
-    let out ← pTenD
-    match Critic.eval out.t reward with
-    | some (v, l) => pure (some ⟨v, l, "-", "critic"⟩)
-    | none => pure none
-  else if t == "rollout" then
-    let g ← pTenK
-    let (v, l) := Rollout.eval g.t; pure (some ⟨v, l, "-", "rollout"⟩)
-  else if t == "warmup" then
+  if t == "no" then pure BlSpec.no
+  else if t == "shared" then pure BlSpec.shared
+  else if t == "given" then (do let v ← pTenD; let l ← pDual; pure (BlSpec.given v.t l))
+  else if t == "ema" then (do let beta ← pRat; let st ← pOptRat; pure (BlSpec.ema beta st))
+  else if t == "critic" then (do let out ← pTenD; pure (BlSpec.critic out.t))
+  else if t == "rollout" then (do let g ← pTenK; pure (BlSpec.rollout g.t))
+  else if t == "warmup" then (do
     let alpha ← pRat; let n ← pNat; let beta ← pRat; let st ← pOptRat
-    let inner ← pBl reward
-    match inner with
-    | none => pure none
+    let inner ← pBlSpec
+    pure (BlSpec.warmup alpha n beta st inner))
+  else failure
+
+/-- evaluate a baseline: `coded = true` with the as-coded definitions (what the real code should do token by token),
+`coded = false` with the reference-form definitions the theorems are about (what the property states) -/
+def evalBl (coded : Bool) (reward : Ten (Dual Rat)) : BlSpec → Option BlOut
+  | BlSpec.no => let (v, l) := (noBaselineEval : Ten (Dual Rat) × Dual Rat); some ⟨v, l, "-", "no"⟩
+  | BlSpec.shared => let (v, l) := if coded then sharedEvalC reward else sharedEval reward; some ⟨v, l, "-", "shared"⟩
+  | BlSpec.given v l => some ⟨v, l, "-", "given"⟩
+  | BlSpec.ema beta st =>
+    let (v, l, e) := if coded then Ema.evalC beta st reward else Ema.eval beta st reward
+    some ⟨v, l, s!"ema:{rs e}", "ema"⟩
+  | BlSpec.critic out =>
+    match (if coded then Critic.evalC out reward else Critic.eval out reward) with
+    | some (v, l) => some ⟨v, l, "-", "critic"⟩
+    | none => none
+  | BlSpec.rollout g => let (v, l) := Rollout.eval g; some ⟨v, l, "-", "rollout"⟩
+  | BlSpec.warmup alpha nArg betaArg st inner =>
+    let (n, beta) := if coded then Warmup.configC nArg betaArg (4 / 5 : Rat) else (nArg, betaArg)
+    match evalBl coded reward inner with
+    | none => none
     | some i =>
       let w : Warmup.St Rat := ⟨alpha, n, st⟩
-      match Warmup.eval beta w (i.val, i.loss) reward with
-      | none => pure none
+      match (if coded then Warmup.evalC beta w (i.val, i.loss) reward else Warmup.eval beta w (i.val, i.loss) reward) with
+      | none => none
       | some (v, l, w') =>
         let br := match Warmup.branch w with
           | Warmup.Branch.inner => "inner" | Warmup.Branch.warm => "warm" | Warmup.Branch.both => "both"
-        pure (some ⟨v, l, s!"warm:{br}:{orNone w'.ema}:{i.state}", "warmup"⟩)
-  else failure
+        some ⟨v, l, s!"warm:{br}:{orNone w'.ema}:{i.state}", "warmup"⟩
 
 def pScaleOp : P (ScaleOp Rat) := do
   let t ← tok
@@ -207,66 +227,73 @@ def reinforce : P String := do
   let sc ← pScaleOp
   let R ← pTenD
   let ll ← pTenD
-  let bl ← pBl R.t
+  let bspec ← pBlSpec
   atEnd
-  match bl with
+  let blRef := evalBl false R.t bspec
+  match evalBl true R.t bspec with
   | none => pure "error=baseline-shape"
   | some bl =>
-    match calcLoss sc R.t bl.val ll.t bl.loss with
+    match calcLossC sc R.t bl.val ll.t bl.loss with
     | none => pure "error=shape"
     | some out =>
       let maxd := out.adv.toList.foldl (fun m x => if x.d = 0 then m else m + 1) 0
       let blgrad := bl.val.toList.foldl (fun m x => if x.d = 0 then m else m + 1) 0
       let rgrad := R.t.toList.foldl (fun m x => if x.d = 0 then m else m + 1) 0
       let spec : String :=
-        match specBaseline R bl with
+        match blRef.bind (fun br => (specBaseline R br).map (fun b => (b, br))) with
         | none => "spec=na"
-        | some b =>
+        | some (b, blr) =>
           if R.n = ll.n then
             let scK : Rat → Rat := fun x => match sc with
               | ScaleOp.off => x
               | ScaleOp.divBy c => x / c
               | ScaleOp.norm m f => (x - m) / f
             let adv : Nat → Rat := fun i => scK ((R.flat i).v - b i)
-            let v := Spec.Train.surrogate R.n adv (fun i => (ll.flat i).v) + bl.loss.v
-            let g := Spec.Train.surrogate R.n adv (fun i => (ll.flat i).d) + bl.loss.d
+            let v := Spec.Train.surrogate R.n adv (fun i => (ll.flat i).v) + blr.loss.v
+            let g := Spec.Train.surrogate R.n adv (fun i => (ll.flat i).d) + blr.loss.d
             s!"spec={rs v};{rs g}"
           else "spec=na"
       pure (s!"loss={ds out.loss} rl={ds out.reinforceLoss} blloss={ds bl.loss} blval={tenStr bl.val} "
         ++ s!"advshape={out.adv.sh.toStr} rewardshape={R.t.sh.toStr} advgrad={maxd} blgrad={blgrad} rewardgrad={rgrad} "
         ++ s!"state={bl.state} adv={rsl (out.adv.toList.map (·.v))} {spec}")
 
-/-- `train.warmup N BETA NEV (cb EPOCH | ev BLKIND… tenD(reward))^NEV`: a history of epoch callbacks and
-evaluations of a `WarmupBaseline` whose inner baseline's results are given (`given …`/`no`/`ema …`). -/
+inductive WEv where
+  | cb (e : Nat)
+  | ev (R : Ten (Dual Rat)) (inner : BlSpec)
+
+/-- run a warm-up history with the as-coded (`coded = true`) or the reference-form definitions -/
+def runWarmup (coded : Bool) (nArg : Nat) (betaArg : Rat) (evs : List WEv) : List String :=
+  let (n, beta) := if coded then Warmup.configC nArg betaArg (4 / 5 : Rat) else (nArg, betaArg)
+  let rec go (st : Warmup.St Rat) (acc : List String) : List WEv → List String
+    | [] => acc.reverse
+    | WEv.cb e :: rest =>
+      let st' := if coded then Warmup.epochCallbackC st e else Warmup.epochCallback st e
+      go st' (s!"cb:{rs st'.alpha}:{rs (Spec.Train.warmupAlpha nArg e)}" :: acc) rest
+    | WEv.ev R inner :: rest =>
+      match evalBl coded R inner with
+      | none => go st ("ev:error" :: acc) rest
+      | some i =>
+        match (if coded then Warmup.evalC beta st (i.val, i.loss) R else Warmup.eval beta st (i.val, i.loss) R) with
+        | none => go st ("ev:error" :: acc) rest
+        | some (v, l, st') =>
+          let br := match Warmup.branch st with
+            | Warmup.Branch.inner => "inner" | Warmup.Branch.warm => "warm" | Warmup.Branch.both => "both"
+          go st' (s!"ev:{br}:{tenStr v}:{ds l}:{orNone st'.ema}" :: acc) rest
+  go (Warmup.init n) [] evs
+
+/-- `train.warmup N BETA NEV (cb EPOCH | ev tenD(reward) BL)^NEV`: a history of epoch callbacks and evaluations of a
+`WarmupBaseline(inner, n_epochs=N, warmup_exp_beta=BETA)`; `events` = as coded, `refevents` = reference form -/
 def warmup : P String := do
-  let n ← pNat
-  let beta ← pRat
+  let nArg ← pNat
+  let betaArg ← pRat
   let nev ← pNat
-  let rec go (k : Nat) (st : Warmup.St Rat) (acc : List String) : P (List String) :=
-    match k with
-    | 0 => pure acc.reverse
-    | k + 1 => do
-      let t ← tok
-      if t == "cb" then
-        let e ← pNat
-        let st' := Warmup.epochCallback st e
-        go k st' (s!"cb:{rs st'.alpha}:{rs (Spec.Train.warmupAlpha n e)}" :: acc)
-      else if t == "ev" then
-        let R ← pTenD
-        let inner ← pBl R.t
-        match inner with
-        | none => failure
-        | some i =>
-          match Warmup.eval beta st (i.val, i.loss) R.t with
-          | none => go k st ("ev:error" :: acc)
-          | some (v, l, st') =>
-            let br := match Warmup.branch st with
-              | Warmup.Branch.inner => "inner" | Warmup.Branch.warm => "warm" | Warmup.Branch.both => "both"
-            go k st' (s!"ev:{br}:{tenStr v}:{ds l}:{orNone st'.ema}" :: acc)
-      else failure
-  let out ← go nev (Warmup.init n) []
+  let evs ← pMany (do
+    let t ← tok
+    if t == "cb" then (do let e ← pNat; pure (WEv.cb e))
+    else if t == "ev" then (do let R ← pTenD; let inner ← pBlSpec; pure (WEv.ev R.t inner))
+    else failure) nev
   atEnd
-  pure s!"events={"|".intercalate out}"
+  pure s!"events={"|".intercalate (runWarmup true nArg betaArg evs)} refevents={"|".intercalate (runWarmup false nArg betaArg evs)}"
 
 /-! ### PPO -/
 
@@ -295,7 +322,7 @@ def ppo : P String := do
   let table := args.zip ws
   let w : Rat → Rat := fun x => match table.find? (fun p => p.1 == x) with | some p => p.2 | none => 0
   let cfg : PpoCfg Rat := ⟨lo, hi, vfl, entl, normalize⟩
-  match ppoLoss cfg w ll.t old.t rew.t vp.t ent.t with
+  match ppoLossC cfg w ll.t old.t rew.t vp.t ent.t with
   | none => pure "error=shape"
   | some o =>
     let n := rew.n
@@ -334,8 +361,8 @@ def symnco : P String := do
   atEnd
   let Rf := ofList (0 : Dual Rat) R
   let lf := ofList (0 : Dual Rat) ll
-  let o := symncoLoss ns na n alpha beta Rf lf inv
-  let T := symncoRegroup ns na n Rf
+  let o := symncoLossC ns na n alpha beta Rf lf inv
+  let T := symncoRegroupC ns na n Rf
   let B := T.nb
   -- reference readings on the flat layout k = (s·A + a)·B + b, value and derivative (reward gradient-free)
   let refv (f : Nat → Nat → Nat → Rat → (Nat → Rat) → (Nat → Rat) → Rat) (sel : Dual Rat → Rat) : Rat :=
@@ -350,11 +377,32 @@ def symnco : P String := do
   pure (s!"loss={ds o.loss} ps={ds o.ps} ss={ds o.ss} shape=[{T.nb},{T.ns},{T.na}] refX={rs xv};{rs xd} "
     ++ s!"refY={rs yv};{rs yd} sumzero={Rl4co.Proto.bit (z1 && z2)}")
 
+/-! ### greedy-rollout baseline -/
+
+/-- `train.rolloutcb ALPHA PVAL NBL rat^NBL(bl_vals) NC rat^NC(candidate values on the evaluation set) NF rat^NF(candidate
+values on the fresh evaluation set)` → the decision of `epoch_callback` and the state after it (`mean` is the stored
+mean of `bl_vals`) -/
+def rolloutcb : P String := do
+  let alpha ← pRat; let pv ← pRat
+  let nb ← pNat; let bl ← pMany pRat nb
+  let nc ← pNat; let cand ← pMany pRat nc
+  let nf ← pNat; let fresh ← pMany pRat nf
+  atEnd
+  -- instances are indices; the frozen policy / the candidate are their reward tables
+  let st : RolloutBl.St Nat Rat := ⟨fun xs => xs.map (fun i => bl.getD i 0), List.range nb, bl, RolloutBl.lmean bl⟩
+  let candP : List Nat → List Rat := fun xs => xs.map (fun i => if i < 1000000 then cand.getD i 0 else fresh.getD (i - 1000000) 0)
+  let freshSet := (List.range nf).map (· + 1000000)
+  -- as coded: `PVAL` is the one-sided value; the coded decision halves the two-sided one
+  let acc := RolloutBl.acceptsC (fun _ _ => 2 * pv) alpha st (Ops.rollout candP 1 st.dataset)
+  let st' := RolloutBl.epochCallbackC (fun _ _ => 2 * pv) alpha 3 st candP freshSet
+  let accRef := RolloutBl.accepts (fun _ _ => pv) alpha st (Ops.rollout candP 1 st.dataset)
+  pure s!"accept={Rl4co.Proto.bit acc} refaccept={Rl4co.Proto.bit accRef} mean={rs st'.mean} blvals={rsl st'.blVals} n={st'.dataset.length} candmean={rs (RolloutBl.lmean cand)}"
+
 def run (p : P String) (toks : List String) : Option String := (p toks).map (·.1)
 
 def handlers : List (String × (List String → Option String)) :=
   [("train.welford", run welford), ("train.scale", run scale), ("train.ema", run ema),
    ("train.warmup", run warmup), ("train.reinforce", run reinforce), ("train.ppo", run ppo),
-   ("train.symnco", run symnco)]
+   ("train.symnco", run symnco), ("train.rolloutcb", run rolloutcb)]
 
 end Rl4co.Driver.Train
